@@ -389,9 +389,31 @@ PROPS['C20'] = dict(
 PROPS['C01']['more_proof_modules'] = ['GeodeVerif.Proofs.C01b']
 PROPS['C01']['required_theorems'] += ['y_sign', 'y_sign_neg', 'hemisphere_follows_latitude', 'hemisphere_utm_auto', 'alpha_abs_bound']
 PROPS['C03']['more_proof_modules'] = ['GeodeVerif.Proofs.C03b']
+PROPS['C03']['required_theorems'] += ['height_eq_at_fixed_point', 'height_deriv', 'height_stationary_at_fixed_point']
 PROPS['C03']['required_theorems'] += ['latStep_deriv', 'latStep_contraction_global', 'exit_close_to_fixed_point',
                                       'xyz2llh_exit_error_bound', 'fixed_point_exists', 'xyz2llh_llh2xyz_lat_error']
 
+# angle-class arguments: the translator lists the parameters read only through angular_typecheck; the list is a theorem
+for _p in ('C01', 'C03', 'C04', 'C05', 'C14', 'C19'):
+    PROPS[_p]['required_theorems'] += ['angle_arguments_reduced']
+PROPS['C10']['required_theorems'] += ['angle_arguments_reduced_psfandgridconv', 'angle_arguments_reduced_geo2grid']
+PROPS['C16']['required_theorems'] += ['angle_arguments_reduced_enu2xyz', 'angle_arguments_reduced_xyz2enu']
+PROPS['C17']['more_proof_modules'] = ['GeodeVerif.Proofs.C17b']
+PROPS['C17']['needs_driver'] = True
+PROPS['C17']['tie_functions'] = ['NtvInterp.bilinear_interpolation', 'NtvInterp.bicubic_interpolation']
+PROPS['C17']['tie_n'] = {'quick': 3000, 'thorough': 200000}
+PROPS['C17']['required_theorems'] += ['gen_bilinear', 'gen_bicubic', 'gen_bilinear_blend', 'gen_bilinear_at_node',
+                                      'gen_bilinear_reproduces_linear', 'gen_bicubic_at_node',
+                                      'gen_bicubic_reproduces_biquadratic', 'gen_bicubic_reproduces_linear']
+PROPS['C17']['rule'] = ('regenerated: the interpolation kernels bilinear_interpolation / bicubic_interpolation (cinv, xarr, matmul, '
+                        'the x**i*y**j loop) are translated from ntv2reader.py on every run (GenR/GenF.NtvInterp), proved equal to '
+                        'the model kernels (Proofs/C17b.lean) and tied bitwise (bilinear) / to 2e-10 (bicubic, BLAS order). '
+                        + PROPS['C17']['rule'])
+PROPS['C17']['trusted_base'] = ['Model/Ntv2.lean is a hand-written model of ntv2reader.py (file parsing, sub-grid selection, node '
+                                'addressing, rounding) and transform.ntv2_2d, tied to the code by the correspondence run (sampled); '
+                                'its two interpolation kernels are proved equal to the regenerated text of the code; numpy '
+                                'round/matmul facts measured and modelled (rint(x*1e6)/1e6; left-to-right sums, exact for '
+                                'float32-exact fields)']
 PROPS['C20']['more_proof_modules'] = ['GeodeVerif.Proofs.C20b']
 PROPS['C20']['api_modules'] = ['GeodeVerif.Proofs.C20b']
 PROPS['C20']['needs_api'] = True
